@@ -508,7 +508,7 @@ LEVEL["C05"] = ("Decides structural conditions necessary for C05, not byte conte
 def check_C05(ctx):
     for cfg, F in ctx.configs(["K1", "K2"]):
         ipcl.rule_shm_couple(ctx, cfg, F)
-        ctx.rule("SHM-COUPLE").floor("constructions[%s]" % cfg, 4, cfg)
+        ctx.rule("SHM-COUPLE").floor("constructions[%s]" % cfg, 2, cfg)
         ipcl.rule_shm_len(ctx, cfg, F)
         ctx.rule("SHM-LEN").floor("fill_ctors[%s]" % cfg, 2, cfg)
         ipcl.rule_shm_sibling(ctx, cfg, F)
